@@ -187,15 +187,17 @@ class _GridUFuncSignature:
         identical, the signatures must not be equivalent. Axes positions do have to match exactly.
         """
 
-        def set_unique_inds(sig_part):
-            return set([i for arg in sig_part for i in arg])
+        def unique_inds(sig):
+            # in order of first appearance: the two lists are zipped below, so they
+            # must be ordered consistently (a set is ordered by string hash)
+            return list(
+                dict.fromkeys(
+                    i for arg in list(sig.in_ax_names) + list(sig.out_ax_names) for i in arg
+                )
+            )
 
-        all_unique_sig1_indices = set_unique_inds(self.in_ax_names) | set_unique_inds(
-            self.out_ax_names
-        )
-        all_unique_sig2_indices = set_unique_inds(other.in_ax_names) | set_unique_inds(
-            other.out_ax_names
-        )
+        all_unique_sig1_indices = unique_inds(self)
+        all_unique_sig2_indices = unique_inds(other)
 
         if len(all_unique_sig1_indices) != len(all_unique_sig2_indices):
             return False
